@@ -145,8 +145,6 @@ class _RestoreOnReady(nfa.Spec):
             return ("pending",)
         if ph == "polled" and ev in ("sw:Poll::Ready", "bool:is_ready=1", "bool:is_pending=0"):
             return ("ready",)
-        if ev == "call:share" and ph in ("polled", "ready"):
-            return nfa.Err("the share is cloned from the handle's own field after the in-place poll may have completed: a clone of a completed Shared is a dead share (polling it panics)")
         if ev == "stmt:restore" and ph in ("polled", "ready"):
             return ("restored",)
         if ev == "ret" and ph in ("polled", "ready"):
@@ -195,7 +193,16 @@ def check_inplace_polls(ctx, fx, RULE):
                         return False
                     src_ = _b.origins(x["args"][0], through_calls="plumbing")
                     return {(y.kind, y.site, y.proj) for y in src_ if y.kind in ("arg", "upvar")} == {(y.kind, y.site, y.proj) for y in _direct}
-                RA = nfa.Alphabet(calls=[("poll", lambda x, _t=t: x is _t), ("share", is_share), ("is_ready", nfa.callee_ends("poll::{impl#0}::is_ready", "Poll::is_ready")), ("is_pending", nfa.callee_ends("poll::{impl#0}::is_pending", "Poll::is_pending"))],
+                # the share must have been taken before the poll: a clone of the handle's own field made strictly after the
+                # in-place poll (reachable from it, the poll not reachable from the clone) may clone a completed Shared — a
+                # dead share, polling it panics
+                after_poll = b.reachable_from(bi) - {bi}
+                late = [(cbi, x) for cbi, x in b.normal_calls() if is_share(x) and cbi in after_poll and bi not in b.reachable_from(cbi)]
+                if late:
+                    restored = False
+                    ctx.viol(RULE, "in-place-poll-restores:%s" % f["def"], "the share is cloned from the handle's own field after the in-place poll may have completed: a clone of a completed Shared is a dead share (polling it panics)", fn=f["def"], site=late[0][1]["l"])
+                    continue
+                RA = nfa.Alphabet(calls=[("poll", lambda x, _t=t: x is _t), ("is_ready", nfa.callee_ends("poll::{impl#0}::is_ready", "Poll::is_ready")), ("is_pending", nfa.callee_ends("poll::{impl#0}::is_pending", "Poll::is_pending"))],
                                   adts={"core::task::poll::Poll": "Poll"}, bools={"is_ready", "is_pending"})
                 RA.stmt_fn = is_restore
                 rn = nfa.build(b, RA)
